@@ -24,8 +24,12 @@ import (
 	exocoreapp "github.com/ExocoreNetwork/exocore/app"
 	testutiltx "github.com/ExocoreNetwork/exocore/testutil/tx"
 	"github.com/ExocoreNetwork/exocore/utils"
+	avskeeper "github.com/ExocoreNetwork/exocore/x/avs/keeper"
+	avstypes "github.com/ExocoreNetwork/exocore/x/avs/types"
+	epochstypes "github.com/ExocoreNetwork/exocore/x/epochs/types"
 	oraclekeeper "github.com/ExocoreNetwork/exocore/x/oracle/keeper"
 	oracletypes "github.com/ExocoreNetwork/exocore/x/oracle/types"
+	"github.com/ethereum/go-ethereum/common"
 )
 
 var crossTxCfg client.TxConfig
@@ -194,4 +198,73 @@ func shortErr(err error) string {
 		return "panic"
 	}
 	return "rej"
+}
+
+// ---- AVS fixtures shared by the determinism and liveness domains (keeper entry points the avs
+// precompile calls with the same arguments)
+
+type avsFixture struct {
+	Avs, Task string
+	Owner     Actor
+}
+
+// setupAVSFixture registers an AVS (own task address, minute epoch, asset 0 …) owned by the funded
+// account, opts the given operators in and registers a deterministic BLS key for each of them.
+func setupAVSFixture(c *Chain, seed uint64, idx int, ops []Actor) (avsFixture, error) {
+	fx := avsFixture{
+		Avs:   common.BytesToAddress(detBytes(seed, "avsfx", idx)).String(),
+		Task:  common.BytesToAddress(detBytes(seed, "taskfx", idx)).String(),
+		Owner: c.Funded,
+	}
+	err := c.CachedDo(func(ctx sdk.Context) error {
+		k := c.App.AVSManagerKeeper
+		if err := k.UpdateAVSInfo(ctx, &avstypes.AVSRegisterOrDeregisterParams{
+			AvsName: fmt.Sprintf("fx%d", idx), AvsAddress: fx.Avs, TaskAddr: fx.Task, SlashContractAddr: fx.Task, RewardContractAddr: fx.Task,
+			AvsOwnerAddress: []string{fx.Owner.Acc.String()}, AssetID: append([]string{}, c.AssetIDs...), UnbondingPeriod: 2, EpochIdentifier: epochstypes.MinuteEpochID,
+			CallerAddress: fx.Owner.Acc.String(), Action: avskeeper.RegisterAction, AvsReward: 1, AvsSlash: 1,
+		}); err != nil {
+			return fmt.Errorf("register avs: %w", err)
+		}
+		for i, op := range ops {
+			if err := k.OperatorOptAction(ctx, &avskeeper.OperatorOptParams{OperatorAddress: op.Acc.String(), AvsAddress: fx.Avs, Action: avskeeper.RegisterAction}); err != nil {
+				return fmt.Errorf("opt in %d: %w", i, err)
+			}
+			if k.IsExistPubKey(ctx, op.Acc.String()) {
+				continue
+			}
+			sk := detBLS(seed, int(op.Eth[19])+256*int(op.Eth[18]))
+			h := [32]byte{1}
+			if err := k.RegisterBLSPublicKey(ctx, &avskeeper.BlsParams{Operator: op.Acc.String(), Name: "k", PubKey: sk.PublicKey().Marshal(),
+				PubkeyRegistrationSignature: sk.Sign(h[:]).Marshal(), PubkeyRegistrationMessageHash: h[:]}); err != nil {
+				return fmt.Errorf("bls %d: %w", i, err)
+			}
+		}
+		return nil
+	})
+	return fx, err
+}
+
+// createTaskWithResults creates a task (response period 1, statistical period 1: its statistics are
+// taken at the end of epoch start+2) and lets the signers submit a signed phase-one result.
+func createTaskWithResults(c *Chain, fx avsFixture, signers []Actor) (uint64, error) {
+	var id uint64
+	err := c.CachedDo(func(ctx sdk.Context) error {
+		k := c.App.AVSManagerKeeper
+		p := &avskeeper.TaskInfoParams{TaskContractAddress: fx.Task, TaskName: "t", Hash: []byte("h"), TaskResponsePeriod: 1, TaskStatisticalPeriod: 1,
+			TaskChallengePeriod: 1, ThresholdPercentage: 50, CallerAddress: fx.Owner.Acc.String()}
+		if err := k.CreateAVSTask(ctx, p); err != nil {
+			return fmt.Errorf("create task: %w", err)
+		}
+		id = p.TaskID
+		for _, s := range signers {
+			if err := k.SetTaskResultInfo(ctx, s.Acc.String(), &avstypes.TaskResultInfo{
+				OperatorAddress: s.Acc.String(), TaskContractAddress: fx.Task, TaskId: id, Stage: avstypes.TwoPhaseCommitOne,
+				BlsSignature: detBytes(1, "sig", int(id)),
+			}); err != nil {
+				return fmt.Errorf("submit: %w", err)
+			}
+		}
+		return nil
+	})
+	return id, err
 }
